@@ -7,6 +7,7 @@ import time
 import json
 import re
 
+from .. import adjust
 from .. import coqterm as ct
 from .. import gen_tree as gt
 from .. import ns
@@ -99,9 +100,10 @@ def uses_default_subcollection(d, name):
     return name_class(d, name)[0]
 
 
-class C10(Prop):
+class C10(adjust.Remember, Prop):
     id = "C10"
     corr_module = "Corr.C10Corr"
+    preds = ("corr", "spec", "adj_names", "adj_list_b", "adj_list_c", "adj_list_d", "adj_list_all")
     quick_n = 2400
     thorough_n = 20000
     shard_size = 120
@@ -319,8 +321,8 @@ class C10(Prop):
         rows = ct.result(obs["rows"], lambda rs: ct.lst([
             "(%s, %s, %s, %s)" % (ct.n(r[0]), ct.s(r[1]), ct.strs(r[2]),
                                   ct.opt(ct.n(r[3]) if r[3] is not None else None)) for r in rs]))
-        return "(mk %s %s %s %s %s %s)" % (ns.sub(case["script"]), ct.n(VIEWS[case["view"]]),
-                                           ct.strs(case["names"]), st, nobs, rows)
+        return self.remember(case, "(mk %s %s %s %s %s %s)" % (ns.sub(case["script"]), ct.n(VIEWS[case["view"]]),
+                                                                ct.strs(case["names"]), st, nobs, rows))
 
     def nontrivial(self, case, obs):
         if "ok" not in obs["state"]:
@@ -336,27 +338,33 @@ class C10(Prop):
         return "list:" + case["view"] + (":refused" if "err" in obs["rows"] else "")
 
     def finding_of(self, case, obs):
+        """Which mechanism is present is read off the built tree; the judgement is made in Coq: a finding
+        is named only if the specification with that finding's expectation substituted accepts the case."""
         if "ok" not in obs["state"]:
             return None
         d = obs["state"]["ok"]
         if tree_has(d, lambda c: not defaults_consistent(c)):
             return None     # no listed finding produces a default that names nothing
+        v = self.verdicts(case)
         if case["view"] == "names":
-            if not case["names"]:
+            if not case["names"] or not v.get("adj_names"):
                 return None
             if all(uses_default_subcollection(d, nm) for nm in case["names"]):
                 return "F-C10a"
             if all(uses_binding_alias(d, nm) for nm in case["names"]):
                 return "F-C10b"
             return None
-        if tree_has(d, lambda c: bool(binding_aliases(c))):
+        sig_b = tree_has(d, lambda c: bool(binding_aliases(c)))
+        sig_c = case["view"] == "json" and tree_has(d, renamed)
+        sig_d = tree_has(d, lambda c: mixed_spelling(c, d["auto_dash"]))
+        if sig_b and v.get("adj_list_b"):
             return "F-C10b"
-        if not tree_has(d, lambda c: not defaults_consistent(c)) and \
-                tree_has(d, lambda c: mixed_spelling(c, d["auto_dash"])):
-            # narrow: the only thing wrong is the spelling of names below the root
-            return "F-C10d"
-        if case["view"] == "json" and tree_has(d, renamed):
+        if sig_c and v.get("adj_list_c"):
             return "F-C10c"
+        if sig_d and v.get("adj_list_d"):
+            return "F-C10d"
+        if sum([sig_b, sig_c, sig_d]) >= 2 and v.get("adj_list_all"):
+            return "F-C10b" if sig_b else "F-C10c"
         return None
 
     _shrink_t0 = None
